@@ -147,6 +147,32 @@ class V(JSONWizard):
 ''', threads=['V.from_dict({"myField": 3, "OTHER": "x", "valsList": [1, 2]})', 'fromdict(V, {"my_field": 4, "when_at": "2020-01-02T00:00:00"})'],
          post=['V.from_dict({"MyField": 5, "OTHER": "q"})', 'V(1).to_dict()']),
 
+    dict(name='v1-subtypes-and-catchall', site=None, nfields=0, src=PRELUDE + '''
+class Money(Decimal):
+    pass
+
+class Ratio(float):
+    pass
+
+@dataclass
+class W(JSONWizard):
+    class _(JSONWizard.Meta):
+        v1 = True
+    amount: Money
+    rest: CatchAll
+    ratio: Ratio = Ratio(0.5)
+    span: timedelta = timedelta(0)
+
+@dataclass
+class W2(JSONWizard):
+    class _(JSONWizard.Meta):
+        v1 = True
+    inner: W
+    n: int = 0
+''', threads=['W.from_dict({"amount": "1.50", "ratio": 2, "zz": 1, "span": "1:00:00"})', 'fromdict(W, {"amount": 2, "extra": [1], "ratio": "0.25"})',
+              'W2.from_dict({"inner": {"amount": "3", "k": "v"}, "n": "4"})'],
+         post=['W.from_dict({"amount": "9", "ratio": 1, "q": 0}).to_dict()', 'W2.from_dict({"inner": {"amount": "1"}}).to_dict()']),
+
     dict(name='tagged-union-first-use', site=None, nfields=0, src=PRELUDE + '''
 @dataclass
 class M1(JSONWizard):
